@@ -491,16 +491,27 @@ func (h *vHarness) holdForeign(frn [][]interface{}) []io.Closer {
 	return cs
 }
 
+// newServer builds the server the way main() does: RunOutlineServer with a first configuration that has no services
+// (the harness does not depend on the fields of OutlineServer).  That first load is part of the trace.
+func (h *vHarness) newServer(m *vMetrics, replay int) *OutlineServer {
+	empty := vCfg{Kind: "ok"}
+	f := filepath.Join(h.dir, "cfg-empty.yml")
+	os.WriteFile(f, []byte("services: []\n"), 0o600)
+	server, err := RunOutlineServer(f, 150*time.Millisecond, newPrometheusServerMetrics(), m, replay)
+	h.emit(map[string]any{"ev": "Load", "cfg": vCfgJSON(empty), "frn": vFrn(nil), "ok": err == nil, "err": fmt.Sprint(err)})
+	if err != nil {
+		return nil
+	}
+	return server
+}
+
 func (h *vHarness) runScenario(sc vScenario) {
 	m := newVMetrics()
-	server := &OutlineServer{
-		lnManager:      service.NewListenerManager(),
-		natTimeout:     150 * time.Millisecond,
-		serverMetrics:  newPrometheusServerMetrics(),
-		serviceMetrics: m,
-		replayCache:    service.NewReplayCache(sc.Replay),
-	}
 	h.emit(map[string]any{"ev": "Scenario", "id": sc.ID, "replay": sc.Replay})
+	server := h.newServer(m, sc.Replay)
+	if server == nil {
+		return
+	}
 	for i, st := range sc.Steps {
 		switch st.A {
 		case "Load":
